@@ -67,6 +67,23 @@ class Prop:
         return io, mo, self.judge(case, io, mo)
 
 
+def _shorten(x, depth=0):
+    """samples are for a reader: long lists are cut to their first entries, deep structures summarised"""
+    if isinstance(x, dict):
+        if depth >= 4:
+            return {"...": f"{len(x)} keys"}
+        return {k: _shorten(v, depth + 1) for k, v in list(x.items())[:24]}
+    if isinstance(x, (list, tuple)):
+        cap = 12 if depth < 3 else 6
+        out = [_shorten(v, depth + 1) for v in list(x)[:cap]]
+        if len(x) > cap:
+            out.append(f"... {len(x) - cap} more")
+        return out
+    if isinstance(x, str) and len(x) > 200:
+        return x[:200] + "..."
+    return x
+
+
 def _strip(case):
     return {k: v for k, v in case.items() if not k.startswith("_")}
 
@@ -92,8 +109,8 @@ def run_shard(args):
                     res["keys"].add(v.key if isinstance(v.key, str) else core.stable_hash(v.key))
                 for t in v.tags:
                     res["tags"][t] = res["tags"].get(t, 0) + 1
-                if len(res["samples"]) < 3 and v.key is not None:
-                    res["samples"].append({"case": _strip(c), "impl": io})
+                if len(res["samples"]) < 2 and v.key is not None:
+                    res["samples"].append(_shorten({"case": _strip(c), "impl": io}))
                 if not (v.agree and v.holds):
                     b = {"case": c, "impl": io, "model": mo, "agree": v.agree, "holds": v.holds, "why": v.why}
                     k = match_known(prop.pid, b, prop) if not v.holds else None
